@@ -34,8 +34,10 @@ def gen_cases(ctx):
                     a, b = mknum(rng, ka), mknum(rng, kb)
                     cases.append(("bin", [12, oc] + dg.enc_number(a) + dg.enc_number(b), "%s %s %s" % (KN[ka], BIN[oc], KN[kb]), oc))
                 # SPECIAL VALUES in every cell: a unit operand on either side, equal and opposite values
-                for ra, rb in ((1.0, None), (None, 1.0), (-1.0, None), (2.5, 2.5), (-3.0, 3.0), (1.0, 1.0)):
+                for ra, rb in ((1.0, None), (None, 1.0), (-1.0, None), (2.5, 2.5), (-3.0, 3.0), (1.0, 1.0), (7.5, 2.0), (-9.0, 2.5)):
                     a, b = mknum(rng, ka, re=ra), mknum(rng, kb, re=rb)
+                    if ka == kb and ka != "f" and a[1]:
+                        b = c03.mk(rng, 1 if kb == "d" else 2, list(a[1]), re=b[2])      # the same names in the same order
                     cases.append(("bin", [12, oc] + dg.enc_number(a) + dg.enc_number(b), "%s %s %s" % (KN[ka], BIN[oc], KN[kb]), oc))
     for ka in kinds:
         for oc in range(10):
@@ -152,6 +154,20 @@ def run(ctx):
                 desc, str(dg.plain(da))[:300], str(dg.plain(db))[:300]),
                 {"case": e, "what_op": desc, "implementation": dg.plain(da), "model": dg.plain(db),
                  "harness_cmd": "echo 'c %s' | harness/target/release/rlharness dual" % " ".join(str(t) for t in e)})
+    # the binary table once more with operands that SHARE one variable list whenever they list the same names (two numbers
+    # derived from the same variables; harness RL_PRESENT=2): the model has no storage, the answers are the same
+    bin_idx = [k for k, c in enumerate(cases) if c[0] == "bin"]
+    impl2 = run_harness("dual", ["c " + " ".join(str(x) for x in encd[k]) for k in bin_idx], present=2)
+    for k, a in zip(bin_idx, impl2):
+        tag, e, desc, oc = cases[k][:4]
+        ctx.evaluations += 1
+        ctx.count("binary table with shared variable lists")
+        ok, da, db = dg.agree(a, model[k], schema_for(tag, oc), rtol=1e-9)
+        if not ok:
+            ctx.violation("with operands sharing one variable list the implementation disagrees with the proved model on %s: "
+                          "implementation %s, model %s" % (desc, str(dg.plain(da))[:300], str(dg.plain(db))[:300]),
+                          {"case": e, "what_op": desc, "present": 2, "implementation": dg.plain(da), "model": dg.plain(db),
+                           "harness_cmd": "echo 'c %s' | RL_PRESENT=2 harness/target/release/rlharness dual" % " ".join(str(t) for t in e)})
     for c in cases[::max(1, len(cases) // 5)][:5]:
         ctx.sample(c[2])
     ctx.exhaustive = True
@@ -162,7 +178,7 @@ def replay(ctx, rp):
     build_harness()
     build_coq(["theories/Run/RunDual.vo"])
     c = rp["case"]
-    a = run_harness("dual", ["c " + " ".join(str(x) for x in c)])[0]
+    a = run_harness("dual", ["c " + " ".join(str(x) for x in c)], present=rp.get("present", 0))[0]
     b = coq_eval("Run.RunDual", "runDual", [c], ctx.work)[0]
     print("implementation", a, "\nmodel", b)
     ctx.cleanup()
